@@ -15,8 +15,8 @@ from props import PROPS, COMMON_TRUSTED  # noqa: E402
 
 VERIF = os.path.dirname(os.path.dirname(os.path.abspath(__file__)))
 REPO = os.environ.get('VERIF_REPO', '/repo')
-EVID = os.path.join(VERIF, 'evidence')
-REPLAY = os.path.join(VERIF, 'build', 'replay')
+EVID = os.environ.get('VERIF_EVIDENCE_DIR') or os.path.join(VERIF, 'evidence')
+REPLAY = os.environ.get('VERIF_REPLAY_DIR') or os.path.join(VERIF, 'build', 'replay')
 CACHE = os.path.join(VERIF, 'build', 'cache')
 
 
@@ -149,16 +149,22 @@ def check(pid, tier, seed, update_expected=False):
     # ---- Verus
     V = P.get('verus')
     vfail_keys = []
+    deferred = []   # reasons why the Verus part gave no verdict; the Kani part still runs and may find a violation
     if V:
         for cfgname in V['cfgs'] if tier == 'thorough' else V['cfgs'][:V.get('quick_cfgs', len(V['cfgs']))]:
             try:
                 summ = run_verus_cfg(cfgname, tier, seed, use_cache=(tier == 'quick'))
             except extract.Undecided as e:
-                return undecided(pid, tier, seed, t0, 'extraction/verus [%s]: %s' % (cfgname, e))
+                deferred.append('extraction/verus [%s]: %s' % (cfgname, e))
+                continue
             fe = [e for e in summ['errors'] if e['kind'] == 'frontend']
             if summ.get('verified') is None or fe:
-                return undecided(pid, tier, seed, t0, 'verus front end rejected the extracted crate [%s]: %s'
-                                 % (cfgname, '; '.join(e['msg'][:200] for e in fe[:3]) or 'no result'), summ.get('stderr_tail'))
+                deferred.append('verus front end rejected the extracted crate [%s]: %s'
+                                % (cfgname, '; '.join(e['msg'][:200] for e in fe[:3]) or 'no result'))
+                continue
+            if summ.get('degraded'):
+                notes.append('functions treated as external_body in this run because Verus\' front end rejected a construct in them: %s'
+                             % ', '.join(k for k, _ in summ['degraded']))
             fns = summ['functions']
             mine = select(fns, V['fns'])
             # retry on resource limits
@@ -170,7 +176,8 @@ def check(pid, tier, seed, update_expected=False):
                     return undecided(pid, tier, seed, t0, 'verus retry: %s' % e)
                 rl2 = [e for e in summ2['errors'] if e['kind'] == 'rlimit' and e.get('fn') and key_to_vname(e['fn']) in mine]
                 if rl2:
-                    return undecided(pid, tier, seed, t0, 'resource limit after retry in ' + ', '.join(sorted(set(e['fn'] for e in rl2))))
+                    deferred.append('resource limit after retry in ' + ', '.join(sorted(set(e['fn'] for e in rl2))))
+                    continue
                 summ = summ2
                 fns = summ['functions']
                 mine = select(fns, V['fns'])
@@ -185,7 +192,7 @@ def check(pid, tier, seed, update_expected=False):
                 if is_canary:
                     # vacuity guard: a canary asserts false under a contract's precondition and MUST fail
                     if ok:
-                        return undecided(pid, tier, seed, t0, 'vacuity guard: %s verified, its precondition is contradictory' % name)
+                        deferred.append('vacuity guard: %s verified, its precondition is contradictory' % name)
                     obligations.append({'id': oid, 'backend': 'verus/z3 (canary: must fail)', 'ok': True, 'time_s': fns[name]['time_us'] / 1e6})
                     continue
                 obligations.append({'id': oid, 'backend': 'verus/z3', 'ok': ok, 'time_s': fns[name]['time_us'] / 1e6,
@@ -225,6 +232,15 @@ def check(pid, tier, seed, update_expected=False):
                         return undecided(pid, tier, seed, t0, 'kani harness %s produced no verdict' % h, r['raw_tail'])
                     isb = h in g.get('bounded', {})
                     ok = hr['status'] == 'SUCCESSFUL'
+                    if not ok and hr['failed_checks']:
+                        # assertion messages carry the id of the property they decide ("C17: ..."); a harness shared between
+                        # properties only fails for this property on its own assertions and on untagged checks (panics, overflow)
+                        mine_fc = [f for f in hr['failed_checks'] if not re.search(r'\bC\d\d:', f['desc']) or re.search(r'\b%s:' % pid, f['desc'])]
+                        if not mine_fc:
+                            ok = True
+                            notes.append('harness %s failed only on assertions of other properties: %s' % (h, '; '.join(f['desc'][:60] for f in hr['failed_checks'][:3])))
+                        else:
+                            hr['failed_checks'] = mine_fc
                     if ok and hr['cover_total'] and hr['cover_satisfied'] < hr['cover_total']:
                         return undecided(pid, tier, seed, t0, 'vacuity guard: cover in %s unsatisfied (%d/%d)' % (h, hr['cover_satisfied'], hr['cover_total']))
                     rec = {'id': oid, 'backend': 'kani/cbmc', 'ok': ok, 'time_s': hr['time_s'], 'checks': hr['checks'],
@@ -261,10 +277,10 @@ def check(pid, tier, seed, update_expected=False):
     missing = sorted(x for x in expected if x not in got_ids and x not in set(b['id'] for b in bounded)
                      and not (tier == 'quick' and x_is_thorough_only(P, x)))
     if missing:
-        return undecided(pid, tier, seed, t0, 'obligations of the committed expected list are missing from this run '
-                         '(renamed/removed function or harness): ' + ', '.join(missing[:6]))
+        deferred.append('obligations of the committed expected list are missing from this run '
+                        '(renamed/removed function or harness, or function outside the verifier\'s reach): ' + ', '.join(missing[:6]))
     if not obligations:
-        return undecided(pid, tier, seed, t0, 'vacuity guard: zero obligations generated')
+        deferred.append('vacuity guard: zero obligations generated')
 
     # ---- pair failing Verus obligations with counterexample finders
     violations = []
@@ -315,6 +331,8 @@ def check(pid, tier, seed, update_expected=False):
         else:
             real.append(v)
 
+    if deferred and not [v for v in real if v['kind'] == 'kani' or v.get('found')]:
+        return undecided(pid, tier, seed, t0, ' | '.join(deferred), '\n'.join(notes))
     discharged = sum(1 for o in obligations if o['ok'])
     wall = round(time.time() - t0, 2)
     samples = []
@@ -333,6 +351,7 @@ def check(pid, tier, seed, update_expected=False):
             'bounded_standins_not_counted_as_proved': bounded,
             'verus_runs': verus_info,
             'known_findings_reported': len(violations) - len(real),
+            'notes': notes + deferred,
             'solver_time_s': round(sum((o['time_s'] or 0) for o in obligations), 3),
             'exhaustive': False,
         },
@@ -467,3 +486,6 @@ def main(argv):
         return check(pid, tier, seed, update_expected=upd)
     except extract.Undecided as e:
         return undecided(pid, tier, seed, time.time(), str(e))
+    except Exception as e:   # a crash of the machinery is never an alarm
+        import traceback
+        return undecided(pid, tier, seed, time.time(), 'internal error: %r' % e, traceback.format_exc())
